@@ -1,8 +1,118 @@
-import FlatccModel.Reader
-/-! # C01 — verifier acceptance implies in-bounds, aligned, terminating reads (theorems: work in progress) -/
+import FlatccModel.VerifierSound4
+/-!
+# C01 — verifier acceptance implies in-bounds, aligned reads
+
+`S` is the schema as the runtime sees it (the call lists of the generated verifiers, `WF S M` = what
+the schema compiler guarantees about them), `c` any byte string of any size with any content placed
+at an address aligned to `M`, the largest alignment the schema uses.  `Safe c a` = access `a`
+(offset, length, alignment) lies inside the `c.n` bytes and is aligned at its absolute address.
+`rootAcc`/`tableAcc` list every read the generated reader API makes for the type, to any depth
+(`fuel`), including every vector element, every string up to and including its terminator, every
+union member and union vector element.
+
+Not covered here (see DESIGN.md): nested_flatbuffer fields (known finding), the JSON printer's walk,
+the verifier's own reads (`C01_verifier_no_oob` is checked by the correspondence run only).
+-/
 namespace Flatcc.Verifier
-theorem C01_placeholder_checkHeader (e b o : Nat) (h : checkHeader e b o = true) : w32 (b + o) + 4 ≤ e := by
-  unfold checkHeader at h
-  simp only [Bool.and_eq_true, decide_eq_true_eq] at h
-  omega
+
+/-- Main theorem: an accepted table root is safe to read through every accessor, for every buffer. -/
+theorem C01_table_root {c : Ctx} {M : Nat} (P : Placed c M) (S : Schema) (w : WF S M) (idHash t : Nat)
+    (h : verifyTableAsRoot S c idHash t = .ok ()) :
+    ∀ fuel a, a ∈ rootAcc S c fuel t → Safe c a := by
+  intro fuel a ha
+  unfold verifyTableAsRoot at h
+  obtain ⟨_, hh, h⟩ := bind_ok h
+  obtain ⟨o, ho, h⟩ := bind_ok h
+  obtain ⟨h04, ho2⟩ := rd32_ok ho
+  have holt := r32_lt c 0
+  unfold rootAcc at ha
+  simp only [List.mem_cons] at ha
+  rcases ha with rfl | ha
+  · exact safe4 P (by omega) (by omega)
+  · rw [← ho2] at ha
+    have := table_sound P S w 128 0 o maxLevels t (by omega) (by omega) h fuel a
+    rw [Nat.zero_add] at this
+    exact this ha
+
+/-- The size-prefixed variants: the root offset is read at 4, and every access stays inside the
+prefix-declared size (which the header check bounds by the given size). -/
+theorem C01_table_root_with_size {c : Ctx} {M : Nat} (P : Placed c M) (S : Schema) (w : WF S M) (idHash t : Nat)
+    (h : verifyTableAsRootWithSize S c idHash t = .ok ()) :
+    ∃ n', n' ≤ c.n ∧ ∀ fuel a, a ∈ (⟨4, 4, 4⟩ :: tableAcc S { c with n := n' } fuel (4 + r32 c 4) t) →
+      Safe { c with n := n' } a := by
+  unfold verifyTableAsRootWithSize at h
+  obtain ⟨n', hh, h⟩ := bind_ok h
+  obtain ⟨o, ho, h⟩ := bind_ok h
+  obtain ⟨h44, ho2⟩ := rd32_ok ho
+  -- header: n' = size field + 4 ≤ c.n, and at least 12 bytes
+  unfold verifyHeaderWithSize at hh
+  obtain ⟨_, g1, hh⟩ := bind_ok hh
+  obtain ⟨_, g2, hh⟩ := bind_ok hh
+  obtain ⟨_, g3, hh⟩ := bind_ok hh
+  obtain ⟨sz, hsz, hh⟩ := bind_ok hh
+  obtain ⟨_, g4, hh⟩ := bind_ok hh
+  obtain ⟨_, _, hh⟩ := bind_ok hh
+  have e : sz + 4 = n' := pure_ok hh
+  have k3 := guard_ok g3; have k4 := guard_ok g4
+  simp only [decide_eq_true_eq] at k3 k4
+  have hle : n' ≤ c.n := by omega
+  have P' : Placed { c with n := n' } M := ⟨P.m4, P.mpow, P.aligned, by have := P.size; show n' ≤ 4294967287; omega⟩
+  refine ⟨n', hle, ?_⟩
+  intro fuel a ha
+  simp only [List.mem_cons] at ha
+  -- to enter verifyTable the header of the root table had to be inside n'
+  have holt := r32_lt c 4
+  rcases ha with rfl | ha
+  · -- the verifier read the root offset inside n' (checkHeader of the root table needs 4 + o + 4 ≤ n')
+    cases hf : (128 : Nat) with
+    | zero => simp at hf
+    | succ f =>
+      rw [hf] at h
+      obtain ⟨td, inv, htab, _, _⟩ := verifyTable_header P' S f 4 o maxLevels t (by omega) (by omega) h
+      have := inv.tab4
+      exact safe4 P' (by show 4 + 4 ≤ n'; rw [htab] at this; show 8 ≤ n'; simp only [] at this; omega) (by decide)
+  · rw [← ho2] at ha
+    exact table_sound P' S w 128 4 o maxLevels t (by omega) (by omega) h fuel a ha
+
+/-- struct roots: the struct lies inside the buffer and is aligned -/
+theorem C01_struct_root {c : Ctx} {M : Nat} (P : Placed c M) (idHash size align : Nat)
+    (hal : align ∣ M) (hsize : size < 4294967296)
+    (h : verifyStructAsRoot c idHash size align = .ok ()) :
+    Safe c ⟨0, 4, 4⟩ ∧ Safe c ⟨r32 c 0, size, align⟩ := by
+  unfold verifyStructAsRoot at h
+  obtain ⟨_, hh, h⟩ := bind_ok h
+  obtain ⟨o, ho, h⟩ := bind_ok h
+  obtain ⟨h04, ho2⟩ := rd32_ok ho
+  have holt := r32_lt c 0
+  refine ⟨safe4 P (by omega) (by omega), ?_⟩
+  have := verifyStruct_safe P (Nat.le_refl _) (by omega) hsize hal h
+  rw [Nat.zero_add, ho2] at this
+  exact this
+
+/-- the reader never writes: an access is a read by construction (the model has no write constructor),
+and the verifier model's only effect is its verdict -/
+theorem C01_readonly (S : Schema) (c : Ctx) (fuel t : Nat) :
+    ∀ a ∈ rootAcc S c fuel t, ∃ addr len align, a = ⟨addr, len, align⟩ := by
+  intro a _; exact ⟨a.addr, a.len, a.align, rfl⟩
+
+/-- the hypotheses are satisfiable: a 16-aligned placement of a 64-byte buffer, and a schema with every kind of call -/
+example : Placed { buf := fun _ => 0, n := 64, A := 4096 } 16 :=
+  ⟨by decide, by decide, by decide, by decide⟩
+
+example : WF { tables := [[⟨0, false, .scalar 4 4⟩, ⟨1, true, .string⟩, ⟨2, false, .vector 8 8 536870911⟩,
+                           ⟨3, false, .stringVector⟩, ⟨4, false, .table 0⟩, ⟨5, false, .tableVector 0⟩,
+                           ⟨7, false, .union 0⟩, ⟨9, false, .unionVector 0⟩]],
+               unions := [[(1, .table 0), (2, .struct 16 16), (3, .string)]] } 16 := by
+  refine ⟨?_, ?_⟩
+  · intro fs hfs f hf
+    simp only [List.mem_cons, List.mem_nil_iff, or_false] at hfs
+    subst hfs
+    simp only [List.mem_cons, List.mem_nil_iff, or_false] at hf
+    rcases hf with rfl | rfl | rfl | rfl | rfl | rfl | rfl | rfl <;> (unfold FieldWF; simp) <;> decide
+  · intro ms hms cm hcm
+    simp only [List.mem_cons, List.mem_nil_iff, or_false] at hms
+    subst hms
+    simp only [List.mem_cons, List.mem_nil_iff, or_false] at hcm
+    rcases hcm with rfl | rfl | rfl <;> (unfold MemberWF; simp) <;> decide
+
 end Flatcc.Verifier
